@@ -296,6 +296,24 @@ func tuneProfile(p *Plan, r *Rng, thorough bool) {
 		p.ListenerChaos = false
 		w["reset"] = 2
 		w["regtype"] = 4
+	case "C14":
+		// pointer-carrying components, GC faults at boundaries and inside moves
+		p.GCPermille = []int{100, 250, 400}[r.Intn(3)]
+		np := 1 + r.Intn(3)
+		for i := 0; i < np && i < len(p.Types); i++ {
+			p.Types[len(p.Types)-1-i] = TypeSpec{Kind: "ptr", Late: r.Intn(5) == 0}
+		}
+		if r.Intn(2) == 0 {
+			p.Types[0] = TypeSpec{Kind: "ptrrel"}
+		}
+		w["set"], w["xchg"], w["rm"], w["batch"], w["newbatch"], w["reset"] = 22, 20, 12, 10, 6, 2
+		w["setrel"] = 10
+		if r.Intn(2) == 0 {
+			p.CapInc = 1 + r.Intn(3)
+		}
+		p.EntityCap = 6 + r.Intn(30)
+		p.Steps = 40 + r.Intn(80)
+		p.Wide = ""
 	case "C15":
 		w["reset"] = 5
 		p.FreshTwin = true
